@@ -85,7 +85,7 @@ def cases(tier, rng):
                 yield case_line(op, a, b)
     for a in red[::3]:
         for b in red[::3]:
-            for op in ('td.opadd', 'td.opsub'):
+            for op in ('td.opadd', 'td.opsub', 'td.opaddasg', 'td.opsubasg'):
                 yield case_line(op, a, b)
     for d in lat:
         for k in ks:
@@ -102,9 +102,12 @@ def cases(tier, rng):
     for a in red[::7]:
         for b in red[::7]:
             yield case_line('td.sum', [a, b, [1, 0]])
+            yield case_line('td.sumv', [a, b, [1, 0]])
+    yield case_line('td.sumv', [])
+    yield case_line('td.consts')
     # random
     n = 40000 if tier == 'quick' else 1500000
-    ops2 = ['td.add', 'td.sub', 'td.cmp', 'td.opadd', 'td.opsub']
+    ops2 = ['td.add', 'td.sub', 'td.cmp', 'td.opadd', 'td.opsub', 'td.opaddasg', 'td.opsubasg']
     opsk = ['td.mul', 'td.div', 'td.opmul', 'td.opdiv']
     ops1 = ['td.acc', 'td.neg', 'td.abs', 'td.tostd', 'td.disp']
     for _ in range(n):
@@ -121,4 +124,4 @@ def cases(tier, rng):
             yield case_line(rng.choice(list(units) + ['td.millis', 'td.micros', 'td.nanos', 'td.pweeks', 'td.pdays',
                                        'td.phours', 'td.pminutes', 'td.pseconds', 'td.pmillis']), rand_i64(rng))
         else:
-            yield case_line('td.sum', [rand_td(rng) for _ in range(rng.randint(0, 5))])
+            yield case_line(rng.choice(['td.sum', 'td.sumv']), [rand_td(rng) for _ in range(rng.randint(0, 5))])
